@@ -1,213 +1,18 @@
-(* End to end: parse fidelity (C03) carried through the framed connection (C04).
-   A server that sends any sequence of response values, each in any of its RFC spellings (Spec.enc_response), over a
-   transport that cuts the byte stream anywhere and reports "not ready" whenever it likes, makes the framed read side
-   deliver exactly those values, one frame per response, each frame holding exactly the bytes of its response, in
-   order, none withheld.  The statement composes response_roundtrip (RoundTripRules.v, about the regenerated grammar)
-   with the chunking theorems of ClientProofs.v; nothing new is assumed. *)
-From TI Require Import Bytes Grammar Nom Interp InterpFacts Thm_Sfx Natives Tags Builders Client ClientProofs SessionProofs Proofs_C01 Proofs_C02 Spec RoundTripRules.
-From Coq Require Import Lia Wf_nat.
+(* End to end for the RFC spellings: E2EGen.v instantiated with Spec.enc_response, whose round trip
+   (RoundTripRules.response_roundtrip, about the grammar regenerated from the source) is the hypothesis. *)
+From TI Require Import Bytes Grammar Nom Interp Natives Tags Builders Client ClientProofs SessionProofs Spec RoundTripRules.
+From TI Require Export E2EGen.
+From Coq Require Import Lia.
 
-Definition sent := list (val * list byte).          (* what the server meant, and how it spelled it *)
-Definition wire (s : sent) : list byte := List.concat (map snd s).
-Definition expected (s : sent) : list (list byte * val) := map (fun p => (snd p, fst p)) s.
-Definition conformant (s : sent) : Prop := Forall (fun p => enc_response (fst p) (snd p)) s.
-
-Lemma decode_of_encoding v w rest : enc_response v w -> decode (w ++ rest) = DFrame w v rest.
-Proof.
-  intros H. unfold decode. rewrite (response_roundtrip v w H rest).
-  assert (E : (nlen w <=? nlen (w ++ rest)) = true).
-  { apply N.leb_le. rewrite !nlen_spec, app_length. lia. }
-  rewrite E, take_used_prefix. reflexivity.
-Qed.
-
-Lemma decode_nil : decode [] = DNone.
-Proof. vm_compute. reflexivity. Qed.
-
-(* the one-piece parse of what a conformant server sent: its responses, then nothing *)
-Lemma frames_of_encodings s : conformant s -> Frames (wire s) (expected s) StopInc [].
-Proof.
-  induction 1 as [|[v w] s Hw _ IH]; cbn [wire expected map List.concat fst snd].
-  - apply FInc. exact decode_nil.
-  - eapply FCons; [apply decode_of_encoding; exact Hw | exact IH].
-Qed.
-
-(* ... and a further response that has only partly arrived stays in the buffer, whole *)
-Lemma frames_of_encodings_then_partial s P : conformant s -> decode P = DNone -> Frames (wire s ++ P) (expected s) StopInc P.
-Proof.
-  intros Hs HP. induction Hs as [|[v w] s Hw _ IH]; cbn [wire expected map List.concat fst snd app].
-  - apply FInc. exact HP.
-  - rewrite <- app_assoc. eapply FCons; [apply decode_of_encoding; exact Hw | exact IH].
-Qed.
-
-(* every chunking, every not-ready schedule: the frames delivered are the values sent, in their own bytes *)
-Lemma conformant_stream_delivered_lemma : forall s fuel rd fs st',
-  conformant s -> data_only rd -> bytes_of rd = wire s ->
-  fr_drain fuel rf_init rd = (fs, PPending, st', []) ->
-  fs = expected s /\ rf_buf st' = [].
-Proof.
-  intros s fuel rd fs st' Hs Hd Hb H.
-  eapply no_withholding_lemma; [exact Hd | exact H |]. rewrite Hb. apply frames_of_encodings. exact Hs.
-Qed.
-
-(* the same while a further response is still arriving: everything complete has been delivered, the rest waits *)
-Lemma conformant_stream_partial_lemma : forall s P fuel rd fs st',
-  conformant s -> decode P = DNone -> data_only rd -> bytes_of rd = wire s ++ P ->
-  fr_drain fuel rf_init rd = (fs, PPending, st', []) ->
-  fs = expected s /\ rf_buf st' = P.
-Proof.
-  intros s P fuel rd fs st' Hs HP Hd Hb H.
-  destruct (frames_chunking_invariant_lemma fuel rd fs PPending st' [] Hd H) as [used [Hu Hc]].
-  rewrite app_nil_r in Hu. subst used.
-  destruct Hc as [[_ HF]|[[Habs _]|Habs]]; try discriminate.
-  rewrite Hb in HF. pose proof (frames_of_encodings_then_partial s P Hs HP) as HF'.
-  destruct (Frames_det _ _ _ _ HF _ _ _ HF') as [-> [_ ->]]. auto.
-Qed.
-
-(* a proper prefix of a response is an incomplete buffer (C02 on the relation) *)
-Lemma prefix_of_encoding_incomplete v w P Q : enc_response v w -> w = P ++ Q -> Q <> [] -> decode P = DNone.
-Proof.
-  intros H -> HQ. pose proof (response_roundtrip v (P ++ Q) H []) as E. rewrite app_nil_r in E.
-  unfold decode.
-  pose proof (Proofs_C02.prefix_incomplete_lemma (P ++ Q) v (nlen (P ++ Q)) E P Q eq_refl HQ) as HI.
-  destruct HI as [HI|[HI|HI]]; [rewrite HI; reflexivity | exfalso; exact (no_panic_lemma P HI) | exfalso; exact (no_fuel_lemma P HI)].
-Qed.
-
-(* ------------------------------------------------------------------------------------------------
-   The same for n successive polls of the read side by anybody (fr_trace) -- the reference against which
-   SessionProofs.v states what the streams of a whole session hand out. *)
-
-(* the one-piece parse exists for every stream (each frame takes at least its CR LF) *)
-Lemma Frames_total : forall S, exists fs st rem, Frames S fs st rem.
-Proof.
-  intros S. remember (length S) as n eqn:Hn. revert S Hn.
-  induction n as [n IH] using lt_wf_ind. intros S Hn.
-  destruct (decode S) as [raw v rest| | |] eqn:E.
-  - pose proof (decode_frame_shape _ _ _ _ E) as Hs.
-    destruct (frame_ends_with_crlf_lemma _ _ _ _ E) as [w0 Hw].
-    assert (Hl : (length rest < n)%nat).
-    { subst n. rewrite Hs, Hw, !app_length. cbn [length]. lia. }
-    destruct (IH (length rest) Hl rest eq_refl) as [fs [st [rem HF]]].
-    exists ((raw, v) :: fs), st, rem. eapply FCons; eauto.
-  - exists [], StopInc, S. now apply FInc.
-  - exists [], StopErr, S. now apply FErr.
-  - exfalso. exact (decode_no_panic_lemma S E).
-Qed.
-
-(* frames already delivered from a stream whose one-piece parse is F are the first of F *)
-Lemma Chain_prefix D buf X F st rem : Chain D buf -> Frames (rawcat D ++ buf ++ X) F st rem -> exists fs, F = D ++ fs.
-Proof.
-  intros HC HF. destruct (Frames_total (buf ++ X)) as [fs [st' [rem' H]]].
-  pose proof (HC X fs st' rem' H) as H'. destruct (Frames_det _ _ _ _ HF _ _ _ H') as [-> _]. eauto.
-Qed.
-
-Lemma bytes_of_app a b : bytes_of (a ++ b) = bytes_of a ++ bytes_of b.
-Proof. unfold bytes_of. now rewrite map_app, concat_app. Qed.
-
-Definition is_decode_err (o : pout) : bool := match o with PItem IErrDecode => true | _ => false end.
-Definition no_decode_err (os : list pout) : bool := forallb (fun o => negb (is_decode_err o)) os.
-
-Lemma frames_of_cons o os : frames_of (o :: os) = frame_of o ++ frames_of os.
-Proof. reflexivity. Qed.
-
-(* as long as the codec has not reported a malformed response, the polls conserve the bytes and what they
-   delivered stays a chain of frames of the stream *)
-Lemma fr_trace_inv : forall n st rd D, data_only rd -> rinv st -> rf_errored st = false -> Chain D (rf_buf st) ->
-  forall os st' rd', fr_trace n st rd = (os, st', rd') -> no_decode_err os = true ->
-  exists used, rd = used ++ rd' /\ data_only rd' /\ rinv st' /\ rf_errored st' = false /\
-    Chain (D ++ frames_of os) (rf_buf st') /\
-    rawcat D ++ rf_buf st ++ bytes_of used = rawcat (D ++ frames_of os) ++ rf_buf st'.
-Proof.
-  induction n as [|n IH]; intros st rd D Hd Hinv Herr HC os st' rd' H Hne.
-  - cbn in H. injection H as <- <- <-. exists []. cbn [frames_of flat_map bytes_of map List.concat]. rewrite !app_nil_r. auto 10.
-  - cbn [fr_trace] in H. destruct (fr_poll st rd) as [[st1 o] rd1] eqn:Ep.
-    destruct (fr_trace n st1 rd1) as [[os1 st2] rd2] eqn:Et. injection H as <- <- <-.
-    cbn [no_decode_err forallb] in Hne. apply andb_prop in Hne. destruct Hne as [Ho Hne].
-    destruct (fr_poll_inv rd st D Hd Hinv Herr HC _ _ _ Ep) as [used [Hu [HC1 [Hby [Heof1 [Hpend [Hok [Herr1 [Hnn [Hnp [Hd1 Hcls]]]]]]]]]]].
-    assert (He1 : rf_errored st1 = false).
-    { destruct (rf_errored st1) eqn:Ee; [|reflexivity]. rewrite (Herr1 eq_refl) in Ho. discriminate. }
-    destruct (IH st1 rd1 (D ++ delivered o) Hd1 (Hok He1) He1 HC1 _ _ _ Et Hne) as [used2 [Hu2 [Hd2 [Hinv2 [He2 [HC2 Hby2]]]]]].
-    exists (used ++ used2). rewrite frames_of_cons. change (frame_of o) with (delivered o). rewrite !app_assoc in *.
-    split; [rewrite Hu, Hu2; now rewrite app_assoc|]. split; [exact Hd2|]. split; [exact Hinv2|]. split; [exact He2|].
-    split; [exact HC2|]. rewrite <- Hby2. unfold bytes_of. rewrite map_app, concat_app. fold (bytes_of used) (bytes_of used2).
-    rewrite !app_assoc. f_equal. rewrite <- !app_assoc. rewrite <- !app_assoc in Hby. exact Hby.
-Qed.
-
-(* a trace that reports a malformed response has a first such report *)
-Lemma fr_trace_first_err : forall n st rd os st' rd', fr_trace n st rd = (os, st', rd') -> no_decode_err os = false ->
-  exists n1 os1 st1 rd1 st2 rd2, fr_trace n1 st rd = (os1, st1, rd1) /\ no_decode_err os1 = true /\
-    fr_poll st1 rd1 = (st2, PItem IErrDecode, rd2).
-Proof.
-  induction n as [|n IH]; intros st rd os st' rd' H Hne.
-  - cbn in H. injection H as <- <- <-. discriminate.
-  - cbn [fr_trace] in H. destruct (fr_poll st rd) as [[st1 o] rd1] eqn:Ep.
-    destruct (fr_trace n st1 rd1) as [[os1 st2] rd2] eqn:Et. injection H as <- <- <-.
-    cbn [no_decode_err forallb] in Hne. destruct (is_decode_err o) eqn:Eo.
-    + exists 0%nat, [], st, rd, st1, rd1. cbn. split; [reflexivity|]. split; [reflexivity|].
-      destruct o as [[| | | | |]| | |]; try discriminate. exact Ep.
-    + cbn [negb andb] in Hne. destruct (IH _ _ _ _ _ Et Hne) as [n1 [os2 [sa [ra [sb [rb [H1 [H2 H3]]]]]]]].
-      exists (S n1), (o :: os2), sa, ra, sb, rb. cbn [fr_trace]. rewrite Ep, H1. split; [reflexivity|].
-      split; [|exact H3]. cbn [no_decode_err forallb]. rewrite Eo. exact H2.
-Qed.
-
-Lemma expected_app_inv s D fs : expected s = D ++ fs -> exists s1 s2, s = s1 ++ s2 /\ expected s1 = D /\ expected s2 = fs.
-Proof.
-  unfold expected. intros H. apply map_eq_app in H. destruct H as [s1 [s2 [-> [H1 H2]]]]. eauto.
-Qed.
-
-(* n polls of a fresh read side fed with what a conformant server sent, cut anywhere: no malformed-response
-   report, and the frames delivered are exactly the first responses sent -- their values in their own bytes, in
-   order -- while everything else is still in the buffer or in the transport *)
-Lemma conformant_trace_lemma : forall s n rd os st' rd',
-  conformant s -> data_only rd -> bytes_of rd = wire s ->
-  fr_trace n rf_init rd = (os, st', rd') ->
-  no_decode_err os = true /\
-  exists s1 s2, s = s1 ++ s2 /\ frames_of os = expected s1 /\ rf_buf st' ++ bytes_of rd' = wire s2.
-Proof.
-  intros s n rd os st' rd' Hs Hd Hb H.
-  pose proof (frames_of_encodings s Hs) as HF.
-  assert (Hne : no_decode_err os = true).
-  { destruct (no_decode_err os) eqn:E; [reflexivity|]. exfalso.
-    destruct (fr_trace_first_err _ _ _ _ _ _ H E) as [n1 [os1 [st1 [rd1 [st2 [rd2 [H1 [Hn1 Hp]]]]]]]].
-    destruct (fr_trace_inv n1 rf_init rd [] Hd rinv_init eq_refl (Chain_nil _) _ _ _ H1 Hn1) as [used [Hu [Hd1 [Hinv1 [He1 [HC1 Hby1]]]]]].
-    destruct (fr_poll_inv rd1 st1 _ Hd1 Hinv1 He1 HC1 _ _ _ Hp) as [used2 [Hu2 [HC2 [Hby2 [_ [_ [_ [_ [_ [_ [_ Hcls]]]]]]]]]]].
-    destruct Hcls as [Hx|[[raw [v Hx]]|[_ Hde]]]; try discriminate.
-    cbn [delivered app] in HC2, Hby2. rewrite app_nil_r in HC2, Hby2.
-    cbn [app rawcat map List.concat rf_init rf_buf] in Hby1.
-    pose proof (decode_err_stable _ Hde (bytes_of rd2)) as Hde2.
-    pose proof (HC2 (bytes_of rd2) [] StopErr _ (FErr _ Hde2)) as HF2. rewrite app_nil_r in HF2.
-    assert (Hw : rawcat (frames_of os1) ++ rf_buf st2 ++ bytes_of rd2 = wire s).
-    { rewrite <- Hb, Hu, Hu2, !bytes_of_app, Hby1, <- app_assoc. f_equal.
-      apply app_inv_head in Hby2. rewrite <- Hby2, <- app_assoc. reflexivity. }
-    rewrite Hw in HF2. destruct (Frames_det _ _ _ _ HF _ _ _ HF2) as [_ [Hst _]]. discriminate. }
-  split; [exact Hne|].
-  destruct (fr_trace_inv n rf_init rd [] Hd rinv_init eq_refl (Chain_nil _) _ _ _ H Hne) as [used [Hu [Hd1 [Hinv1 [He1 [HC1 Hby1]]]]]].
-  cbn [app rawcat map List.concat rf_init rf_buf] in Hby1. cbn [app] in HC1.
-  assert (Hw : wire s = rawcat (frames_of os) ++ rf_buf st' ++ bytes_of rd').
-  { rewrite <- Hb, Hu, bytes_of_app, Hby1. now rewrite app_assoc. }
-  rewrite Hw in HF. destruct (Chain_prefix _ _ _ _ _ _ HC1 HF) as [fs Hfs].
-  destruct (expected_app_inv _ _ _ Hfs) as [s1 [s2 [-> [E1 E2]]]].
-  exists s1, s2. split; [reflexivity|]. split; [symmetry; exact E1|].
-  unfold wire in Hw. rewrite map_app, concat_app in Hw. fold (wire s1) (wire s2) in Hw.
-  assert (Hr : rawcat (frames_of os) = wire s1).
-  { rewrite <- E1. unfold rawcat, expected, wire. rewrite map_map. reflexivity. }
-  rewrite Hr in Hw. apply app_inv_head in Hw. symmetry. exact Hw.
-Qed.
-
-(* whole sessions (any commands, any numbers of polls per stream, abandoned streams, any write / flush schedule)
-   of a fresh client whose transport delivers what a conformant server sent, cut anywhere and with any not-ready
-   results: the frames handed to the response streams, all of them in order, are exactly the first responses
-   sent, value for value and byte for byte; nothing twice, nothing skipped, nothing invented *)
-Lemma conformant_session_lemma : forall s ops c c' started outs,
-  conformant s -> c_rf c = rf_init -> data_only (io_rd (c_io c)) -> bytes_of (io_rd (c_io c)) = wire s ->
-  session ops c = (c', started, outs) ->
-  exists s1 s2, s = s1 ++ s2 /\ frames_of (List.concat outs) = expected s1 /\
-                rf_buf (c_rf c') ++ bytes_of (io_rd (c_io c')) = wire s2.
-Proof.
-  intros s ops c c' started outs Hs Hrf Hd Hb H.
-  destruct (session_exactly_once_lemma _ _ _ _ _ H) as [n [os [Ht Hf]]]. rewrite Hrf in Ht.
-  destruct (conformant_trace_lemma s n _ os _ _ Hs Hd Hb Ht) as [_ [s1 [s2 [E [E1 E2]]]]].
-  exists s1, s2. split; [exact E|]. split; [rewrite Hf; exact E1 | exact E2].
-Qed.
+Definition conformant : sent -> Prop := E2EGen.conformant enc_response.
+Definition decode_of_encoding := E2EGen.decode_of_encoding enc_response response_roundtrip.
+Definition frames_of_encodings := E2EGen.frames_of_encodings enc_response response_roundtrip.
+Definition conformant_stream_delivered_lemma := E2EGen.conformant_stream_delivered_lemma enc_response response_roundtrip.
+Definition conformant_stream_partial_lemma := E2EGen.conformant_stream_partial_lemma enc_response response_roundtrip.
+Definition prefix_of_encoding_incomplete := E2EGen.prefix_of_encoding_incomplete enc_response response_roundtrip.
+Definition conformant_trace_lemma := E2EGen.conformant_trace_lemma enc_response response_roundtrip.
+Definition conformant_session_lemma := E2EGen.conformant_session_lemma enc_response response_roundtrip.
+Definition conversation_lemma := E2EGen.conversation_lemma enc_response response_roundtrip.
 
 (* non-vacuity: the ID response of Examples_RT (a literal inside) followed by its LIST response, delivered in
    five reads that cut inside a keyword, inside the literal header and between CR and LF, with a not-ready result
@@ -240,4 +45,51 @@ Proof.
   assert (s2 = []).
   { apply (f_equal (@length _)) in Es. rewrite app_length, Hl in Es. cbn [length] in Es. destruct s2; [reflexivity | cbn [length] in Es; lia]. }
   subst s2. rewrite app_nil_r in Es. subst s1. reflexivity.
+Qed.
+
+(* non-vacuity: two commands; the server answers the first with the STATUS response of Examples_RT (a quoted mailbox with an
+   escaped quote) and `A0001 OK`, the second with `a0002 OK` -- a completion that is NOT its own, the tag differs in
+   case -- and then `A0002 no`; delivered in four reads cut inside the STATUS line and inside the tags *)
+Local Open Scope string_scope.
+Local Open Scope list_scope.
+
+Definition done_value (tag : list byte) (st : string) : val :=
+  VRec "Response::Done" [("tag", VCon "RequestId" [VBytes tag]); ("status", VCon st []); ("code", VNone); ("information", VNone)].
+
+Example conversation_example : exists answers ops t,
+  length answers = 2%nat /\ conformant (List.concat answers) /\ Forall2 answer_for (tags_from 0 2) answers /\
+  data_only (io_rd t) /\ bytes_of (io_rd t) = wire (List.concat answers) /\ length (io_rd t) = 5%nat /\
+  match session ops (client_init t) with
+  | (c', started, outs) => Forall (In PNone) outs /\ map frames_of outs = map expected answers /\ rf_buf (c_rf c') = []
+  end.
+Proof.
+  destruct Examples_RT.ex_status_escaped as (v & Hv & Ev).
+  match type of Hv with enc_response _ ?w => set (W := w) in * end.
+  set (d1 := (done_value (bs "A0001") "Status::Ok", bs "A0001" ++ [32] ++ bs "OK" ++ [13; 10])).
+  set (x2 := (done_value (bs "a0002") "Status::Ok", bs "a0002" ++ [32] ++ bs "OK" ++ [13; 10])).
+  set (d2 := (done_value (bs "A0002") "Status::No", bs "A0002" ++ [32] ++ bs "no" ++ [13; 10])).
+  assert (H1 : enc_response (fst d1) (snd d1)) by (apply resp_tagged, enc_tagged_bare; [discriminate | reflexivity | apply st_ok; reflexivity]).
+  assert (Hx : enc_response (fst x2) (snd x2)) by (apply resp_tagged, enc_tagged_bare; [discriminate | reflexivity | apply st_ok; reflexivity]).
+  assert (H2 : enc_response (fst d2) (snd d2)) by (apply resp_tagged, enc_tagged_bare; [discriminate | reflexivity | apply st_no; reflexivity]).
+  set (answers := [[(v, W); d1]; [x2; d2]]).
+  set (S := wire (List.concat answers)).
+  set (t := mk_io [RChunk (firstn 20 S); RNotReady; RChunk (firstn 30 (skipn 20 S)); RChunk (firstn 12 (skipn 50 S)); RChunk (skipn 62 S)] [] [] []).
+  exists answers, [(bs "STATUS x (MESSAGES UIDNEXT)", 6%nat); (bs "CHECK", 6%nat)], t.
+  assert (Hs : conformant (List.concat answers)).
+  { unfold conformant, answers. cbn [List.concat app]. repeat (apply Forall_cons; [assumption|]). apply Forall_nil. }
+  assert (Ha : Forall2 answer_for (tags_from 0 2) answers).
+  { unfold answers. change (tags_from 0 2) with [tag_of 1; tag_of 2]. constructor; [|constructor; [|constructor]].
+    - exists [(v, W)], d1. split; [reflexivity|]. split; [vm_compute; reflexivity|]. constructor; [|constructor].
+      cbn [fst]. subst v. vm_compute. discriminate.
+    - exists [x2], d2. split; [reflexivity|]. split; [vm_compute; reflexivity|]. constructor; [|constructor]. vm_compute. discriminate. }
+  assert (Hd : data_only (io_rd t)) by (unfold t; cbn [io_rd]; repeat constructor).
+  assert (Hb : bytes_of (io_rd t) = wire (List.concat answers)).
+  { subst t S answers. vm_compute. reflexivity. }
+  split; [reflexivity|]. split; [exact Hs|]. split; [exact Ha|]. split; [exact Hd|]. split; [exact Hb|]. split; [reflexivity|].
+  destruct (session _ (client_init t)) as [[c' started] outs] eqn:E.
+  assert (Hend : Forall (In PNone) outs).
+  { subst v. clear -E. vm_compute in E. injection E as _ _ <-. repeat constructor; cbn; tauto. }
+  split; [exact Hend|].
+  refine (conversation_lemma answers _ (client_init t) c' started outs E eq_refl Hd Hb Hs _ Ha Hend).
+  cbn. unfold U64_MAX. lia.
 Qed.
